@@ -214,9 +214,13 @@ def do_run(mod, args, seed, t0, harness):
         "property_id": prop, "tier": tier, "seed": seed, "level": level, "coverage": cov,
         "assumptions": list(getattr(mod, "ASSUMPTIONS", [])), "wall_s": round(wall, 2), "violations": nviol,
     }
-    os.makedirs(harness.EVID_DIR, exist_ok=True)
+    from vlib import env as _env
+    evid_dir = harness.EVID_DIR
+    if _env.REPO != "/repo":   # self-test against a scratch copy: never overwrite the evidence of /repo
+        evid_dir = os.path.join(_env.VERIF_DIR, "out", "selftest_evidence")
+    os.makedirs(evid_dir, exist_ok=True)
     if not args.only:
-        with open(os.path.join(harness.EVID_DIR, "%s.json" % prop), "w") as fh:
+        with open(os.path.join(evid_dir, "%s.json" % prop), "w") as fh:
             fh.write(json.dumps(json.loads(harness.canon(evid)), indent=1, sort_keys=True))
     print("%s tier=%s seed=%d evaluations=%d distinct_nontrivial=%d violations=%d wall=%.1fs" % (
         prop, tier, seed, cov["evaluations"], cov["distinct_nontrivial"], nviol, wall))
